@@ -178,7 +178,11 @@ func genMulti(r *sim.Rng, tier string, valid bool) StreamRecipe {
 		switch r.Intn(4) {
 		case 0:
 			w := genXZWCase(r, "quick", 0, false)
-			w.Payload = sim.GenPayload(r, 600)
+			max := 600
+			if w.XZ.BlockSize > 0 && int64(max) > 12*w.XZ.BlockSize {
+				max = int(12 * w.XZ.BlockSize)
+			}
+			w.Payload = sim.GenPayload(r, max)
 			w.Ops = []Op{{K: "w", N: w.Payload.Len()}, {K: "c"}}
 			p = StreamRecipe{Kind: "lib", W: w}
 		case 1:
